@@ -40,7 +40,8 @@ def configs(tier, seed):
                     order.append(k)
             cfgs.append({"modes": modes, "order": order})
     for k, c in enumerate(cfgs):
-        c["via_signature"] = k % 2          # which half of the sources comes from Source.Signature(...).create()
+        c["via_signature"] = k % 2
+        c["trigger"] = ["level", "rise", "fall", "level"][k % 4]          # trigger mode of the monitor's OWN outgoing source          # which half of the sources comes from Source.Signature(...).create()
     return cfgs
 
 
@@ -54,7 +55,8 @@ def build(cfg):
     emap = event.EventMap()
     for k in cfg["order"]:
         emap.add(srcs[k])
-    mon = event.Monitor(emap, trigger=cfg.get("trigger", "level"))
+    trig = cfg.get("trigger", "level")
+    mon = event.Monitor(emap, trigger=event.Source.Trigger(trig) if len(cfg["modes"]) % 2 else trig)
     return mon, emap, srcs
 
 
